@@ -161,6 +161,17 @@ def _skeletons(repo, out, notes):
         out.append("def skelRes%s : List String := %s" % (fname, lean_list(lean_str(r) for r in res)))
         flat = [x for k in sorted(sites) for x in sites[k]]
         out.append("def patchSites%s : List String := %s" % (fname, lean_list(lean_str(r) for r in flat)))
+    # the command line's wheel directory, once as the user's (it exists on entry) and once as a temporary one
+    cl = os.path.join(repo, "req_compile/cmdline.py")
+    for label, consts, pre in (("user", {"wheeldir": True, "delete_wheeldir": False}, ["tmpdir:wheeldir"]),
+                               ("temp", {"wheeldir": False, "delete_wheeldir": True}, [])):
+        term, res, sites, err = skeleton.function_skeleton(cl, "compile_main", consts=consts, once={"wheeldir"}, preheld=pre)
+        if err:
+            notes.append("skeleton of compile_main/%s: UNTRANSLATABLE (%s)" % (label, err))
+        out.append("/-- regenerated from req_compile/cmdline.py:compile_main, wheel directory %s%s -/" % (
+            "supplied by the user" if label == "user" else "temporary", " — UNTRANSLATABLE: " + err.replace("-/", "- /") if err else ""))
+        out.append("def skel_compile_main_%s : PT.Stmt := %s" % (label, term))
+        out.append("def skelRes_compile_main_%s : List String := %s" % (label, lean_list(lean_str(r) for r in res)))
     return ["ReqVerif.Model.Patch"]
 
 
